@@ -3,6 +3,7 @@ import Uds.Lemmas.Py
 import Uds.Lemmas.Bytes
 import Uds.Props.C14
 import Uds.Props.C03
+import Uds.Lemmas.DidCodec
 /-
   C12 — data written through the client is read back unchanged through a reference ECU.
 
@@ -14,6 +15,8 @@ import Uds.Props.C03
     * mem_write_read_back      bytes written to a memory range are read back identical (the two calls may use different widths)
     * download_reassembled     download + any block sequence (counter wraps past 0xFF) + exit = the original bytes at the address
     * upload_streams_memory    upload of a range + enough pulls returns exactly the bytes the ECU holds there
+    * codec_roundtrip / value_survives_history   the library's own codecs (pack string, ASCII): decode (encode v) = v, refusal instead of wrapping,
+                               and the value-level read-back through them
     * *_survives_history       … and the read-back still holds after any interleaved sequence of calls (successful or failing)
                                that does not itself overwrite the identifier / the memory
 
@@ -864,6 +867,66 @@ theorem upload_streams_memory (cfg : RigCfg) (e : Ecu) (a s : Int) (af mf : Opti
   rw [h2]
   simp only [xferOpenUp, Nat.add_zero, Nat.sub_zero, Nat.min_eq_right hk]
 
+
+
+/-! ## the library's own codecs: `DidCodec(packstr)` and `AsciiCodec` -/
+
+/-- **what a codec encodes, it decodes back** (a scalar comes back as the one-element tuple), and the payload has the length the codec announces -/
+theorem codec_roundtrip (c : Codec) (v : Val) (b : Bytes) (h : c.encode v = .ok b) : c.decode b = .ok v.norm ∧ c.len = .ok b.length := by
+  cases c with
+  | pack s =>
+    unfold Codec.encode at h
+    unfold Codec.decode Codec.len
+    cases hp : parsePackStr s with
+    | none => simp [hp] at h
+    | some f =>
+      simp only [hp] at h ⊢
+      cases v with
+      | one x =>
+        obtain ⟨h1, h2⟩ := pack_unpack f [x] b h
+        simp [h1, h2, Val.norm, bind, Except.bind, pure, Except.pure]
+      | tuple l =>
+        obtain ⟨h1, h2⟩ := pack_unpack f l b h
+        simp [h1, h2, Val.norm, bind, Except.bind, pure, Except.pure]
+      | str cs => simp at h
+  | ascii n =>
+    cases v with
+    | str cs =>
+      unfold Codec.encode at h
+      by_cases hl : cs.length ≠ n
+      · simp [hl] at h
+      · have hl' : cs.length = n := by simpa using hl
+        by_cases ha : cs.all (· < 128) = true
+        · simp only [hl, if_false, ha, if_true, pure_ok] at h
+          subst h
+          obtain ⟨i1, i2⟩ := ascii_bytes cs ha
+          unfold Codec.decode Codec.len
+          simp [i1, i2, hl', Val.norm, pure, Except.pure]
+        · simp [hl, ha] at h
+    | one x => simp [Codec.encode] at h
+    | tuple l => simp [Codec.encode] at h
+
+
+/-- a pack-string codec accepts exactly the values its format admits — out-of-range integers are refused, never wrapped or truncated -/
+theorem pack_accepts_iff (f : PackFmt) (vs : List Int) : (∃ b, f.pack vs = .ok b) ↔ admits f.toks vs = true :=
+  packFrom_ok_iff f.bo f.toks 0 vs
+
+/-- **value level**: a value written through a codec of the library, then any history that does not overwrite the identifier, then read
+    through the same codec: the value written (the configuration entry of the identifier is that codec, i.e. its length is `len(codec)`) -/
+theorem value_survives_history (cfg : RigCfg) (e : Ecu) (did : Int) (c : Codec) (val : Val) (b : Bytes) (cs : List RCall) (hd0 : 0 ≤ did) (hd : did ≤ 0xFFFF)
+    (henc : c.encode val = .ok b) (hfind : cfg.dids.find did.toNat = some (some b.length)) (hv : b ≠ [])
+    (hz : ¬ (did.toNat = 0 ∧ cfg.dids.entries.any (·.1 == 0) = false ∧ cfg.tol = true ∧ allZero (toBE 2 did.toNat ++ b) = true))
+    (hcs : ∀ c ∈ cs, ∀ d v', c = .wdbi d v' → d.toNat ≠ did.toNat) :
+    let e1 := (rigStep cfg e (.wdbi did b)).1
+    let e2 := rigRun cfg e1 cs
+    ∃ raw, (rigStep cfg e2 (.rdbi [did])).2 = .ok (.sd (.rdbi [(did.toNat, raw)])) ∧ c.decode raw = .ok val.norm ∧ c.len = .ok raw.length := by
+  intro e1 e2
+  obtain ⟨h1, h2⟩ := codec_roundtrip c val b henc
+  exact ⟨b, did_survives_history cfg e did b (some b.length) cs hd0 hd hfind (fun n hn => by cases hn; rfl) hv hz hcs, h1, h2⟩
+
+example : (Codec.pack ">HbxL").encode (.tuple [0x1234, -2, 0x01020304]) = .ok [0x12, 0x34, 0xFE, 0x00, 0x01, 0x02, 0x03, 0x04] := by decide
+example : (Codec.pack "<H").encode (.one 0x10000) = .error .structErr := by decide
+example : (Codec.ascii 3).encode (.str [65, 66, 67]) = .ok [0x41, 0x42, 0x43] := by decide
 
 /-! ## non-vacuity, and the excluded point -/
 
